@@ -222,11 +222,213 @@ def literals(kind, tk, n, maxlen, r: Result):
                     r.viol(f'{kind} of {T.t_str(tk)}: literal read back differently', case, f'{got} vs {exp}')
 
 
+# ---------------------------------------------------------------------------------------------------------------------------------
+# Construction from PYTHON objects (MichelsonType.from_python_object: storage / parameter encoding): one more construction path of
+# the alphabet next to Micheline literals.  A Python dict / set has no key order of its own, so every duplicate-free object is a
+# well-formed literal: the constructed collection must be the reference sorted dictionary whatever the insertion order.
+
+class NoPyForm(Exception):
+    """The key has no Python-object presentation of its own (Some None of a nested option reads as None)."""
+
+
+def _rfc3339(v):
+    from datetime import datetime, timedelta, timezone
+    return (datetime(1970, 1, 1, tzinfo=timezone.utc) + timedelta(seconds=v)).strftime('%Y-%m-%dT%H:%M:%SZ')
+
+
+def has_text_form(t) -> bool:
+    return t[0] in ('bytes', 'timestamp') or any(has_text_form(a) for a in t[1:] if isinstance(a, tuple))
+
+
+def py_of(t, v, form='py'):
+    """Reference value -> the Python object pytezos documents for it (comparable position: `or` values are (name, value) tuples with
+    the inferred branch names, nested pairs are flat tuples).  form 'text': bytes as hex text ('0x..' or upper case), timestamps as
+    RFC 3339 text - a second presentation of the SAME key."""
+    p = t[0]
+    if p in ('int', 'nat', 'mutez', 'string', 'bool'):
+        return v
+    if p == 'timestamp':
+        return v if form == 'py' else _rfc3339(v)
+    if p == 'bytes':
+        if form == 'py':
+            return v
+        return v.hex().upper() if v and v[0] >= 0x80 else '0x' + v.hex()
+    if p == 'unit':
+        from pytezos.michelson.types.core import Unit
+        return Unit
+    if p == 'address':
+        return T.address_str(v)
+    if p == 'key_hash':
+        return T.key_hash_str(v)
+    if p == 'key':
+        return T.key_str(v)
+    if p == 'option':
+        if v is None:
+            return None
+        inner = py_of(t[1], v[1], form)
+        if inner is None:
+            raise NoPyForm(T.t_str(t))
+        return inner
+    if p == 'or':
+        return (f'{t[1][0]}_0', py_of(t[1], v[1], form)) if v[0] == 'L' else (f'{t[2][0]}_1', py_of(t[2], v[1], form))
+    if p == 'pair':
+        out = []
+        for ti, vi in ((t[1], v[0]), (t[2], v[1])):
+            x = py_of(ti, vi, form)
+            out += list(x) if ti[0] == 'pair' else [x]
+        return tuple(out)
+    raise NoPyForm(T.t_str(t))
+
+
+def py_container(kind, tk, K, entries, container):
+    """entries: [(key index, form)] in insertion order -> (python object, reference collection or None when two entries denote one key)."""
+    pyk = [py_of(tk, K[i], f) for i, f in entries]
+    idx = [i for i, _ in entries]
+    dup = len(set(idx)) != len(idx)
+    keys = T.sorted_set(tk, [K[i] for i in set(idx)])
+    if kind == 'set':
+        obj = list(pyk) if container == 'list' else set(pyk)
+        return obj, dup, keys
+    vals = VALS[kind][1]
+    obj = {}
+    for (i, _), k in zip(entries, pyk):
+        obj[k] = vals[i % 2]
+    return obj, dup, tuple((k, vals[K.index(k) % 2]) for k in keys)
+
+
+def py_build(tc, obj):
+    """-> ('ok', impl object, reference-form value) | ('rejected', None, message)"""
+    try:
+        o = A.mk_type(tc).from_python_object(obj)
+    except RecursionError:
+        raise
+    except Exception as e:
+        return 'rejected', None, f'{type(e).__name__}: {str(e)[:200]}'
+    try:
+        return 'ok', o, A.from_impl(o, tc)
+    except Exception as e:
+        return 'unreadable', o, f'{type(e).__name__}: {str(e)[:200]}'
+
+
+def py_judge(kind, tk, tc, entries, container, K):
+    """Judge ONE construction.  -> (outcome label, [(descriptor, detail)], impl object|None, expected reference collection)."""
+    obj, dup, exp = py_container(kind, tk, K, entries, container)
+    what = f'{kind} of {T.t_str(tk)}: built from a Python {container}'
+    st, o, got = py_build(tc, obj)
+    if st == 'rejected':
+        if dup:
+            return 'python object with two presentations of one key -> rejected', [], None, exp   # reject or merge: not pinned
+        return 'python object -> REJECTED', [(f'{what} fails', f'{obj!r} -> {got}')], None, exp
+    if st == 'unreadable':
+        return 'python object -> UNREADABLE', [(f'{what} is unreadable', f'{obj!r} -> {got}')], None, exp
+    keys = list(got) if kind == 'set' else [k for k, _ in got]
+    if not T.is_strictly_sorted(tk, keys):
+        srt = list(T.sorted_set(tk, keys))
+        d = 'has duplicate keys' if len(srt) != len(keys) else 'is not sorted'
+        return f'python object -> {d.upper()}', [(f'{what} {d}', f'{obj!r} -> {got!r}')], None, exp
+    if dup:
+        # merged: which of the two values survives is not pinned; the key set is
+        if tuple(keys) != tuple(exp if kind == 'set' else [k for k, _ in exp]):
+            return 'python object -> WRONG KEYS', [(f'{what} differs from the reference dictionary', f'{obj!r} -> {got!r}, keys expected {exp!r}')], None, exp
+        return 'python object with two presentations of one key -> merged', [], None, exp
+    if got != exp:
+        return 'python object -> DIFFERS', [(f'{what} differs from the reference dictionary', f'{obj!r} -> {got!r}, expected {exp!r}')], None, exp
+    return 'python object -> sorted dictionary', [], o, exp
+
+
+def py_entries(tk, n, tier):
+    """Insertion histories: every permutation of every subset of the universe in the plain presentation; for key types with a second
+    presentation every permutation of <=3 (key, presentation) entries (mixed presentations, and one key given twice) plus every
+    full permutation in the text presentation."""
+    out = [tuple((i, 'py') for i in p) for ln in range(n + 1) for p in itertools.permutations(range(n), ln)]
+    if has_text_form(tk):
+        ent = [(i, f) for i in range(n) for f in ('py', 'text')]
+        out += [p for ln in (1, 2, 3) for p in itertools.permutations(ent, ln) if any(f == 'text' for _, f in p)]
+        out += [tuple((i, 'text') for i in p) for p in itertools.permutations(range(n), n)] if n > 3 else []
+    return out
+
+
+def py_ops(kind, tk, tc, K, o, exp, obj_again, progs, ctx, r: Result, case):
+    """MEM / GET / SIZE / ITER / MAP / UPDATE on the collection built from the Python object agree with the reference dictionary."""
+    from pytezos.michelson.stack import MichelsonStack
+    for label, code, is_next in progs:
+        ref = E.run(code, [(tc, exp)])
+        problem = None
+        for attempt in (0, 1):   # a difference is confirmed on a freshly built object (independent of in-place effects of earlier operations)
+            target = o if attempt == 0 else obj_again()
+            stack = MichelsonStack([target])
+            out = M.run_on_stack(code, stack, ctx)
+            try:
+                got = A.read_stack(stack) if out[0] == 'ok' else out
+            except Exception as e:
+                got = f'unreadable: {type(e).__name__}: {e}'
+            ok = got == ref or (isinstance(got, list) and [v for _, v in got] == [v for _, v in ref] and label.startswith('MAP') and not exp)
+            if ok:
+                problem = None
+                break
+            problem = got
+        r.transitions += 1
+        r.traces += 1
+        r.out(f'{kind} {label.split()[0]} after python construction {"ok" if problem is None else "BAD"}')
+        if problem is not None:
+            r.viol(f'{kind} of {T.t_str(tk)}: {label.split()[0]} on a collection built from a Python object differs',
+                   dict(case, op=label, code=code), f'implementation {problem}, reference {ref}')
+
+
+def pyobjects(kind, tk, n, tier, r: Result):
+    K = KEYS[tk][:n]
+    tc = ('set', tk) if kind == 'set' else ('map', tk, VALS[kind][0])
+    ts = T.t_str(tc)
+    ctx = M.make_context()
+    representable = []
+    for i, k in enumerate(K):
+        try:
+            py_of(tk, k)
+            representable.append(i)
+        except NoPyForm:
+            r.no_verdict += 1
+            r.out('key without a Python presentation of its own (skipped)')
+    progs = programs(kind, tk, K)
+    for entries in py_entries(tk, n, tier):
+        if any(i not in representable for i, _ in entries):
+            continue
+        for container in (('list', 'set') if kind == 'set' else ('dict',)):
+            case = {'kind': kind, 'key_type': T.t_str(tk), 'n': n, 'pyobj': [list(e) for e in entries], 'container': container}
+            label, problems, o, exp = py_judge(kind, tk, tc, entries, container, K)
+            r.transitions += 1
+            r.out(label)
+            if len(entries) >= 2:
+                r.nt((ts, 'py', container, entries))
+            for d, detail in problems:
+                r.viol(d, case, detail)
+            if 'presentations of one key' in label:
+                r.no_verdict += 1
+            if o is not None and len(entries) >= 2 and container != 'set':
+                obj = py_container(kind, tk, K, entries, container)[0]
+                py_ops(kind, tk, tc, K, o, exp, lambda: A.mk_type(tc).from_python_object(obj), progs, ctx, r, case)
+    if kind == 'set':
+        # a Python list naming one element twice (<=3 entries): rejecting or merging is not pinned; a set holding it twice is a violation
+        for ln in (2, 3):
+            for seq in itertools.product(representable, repeat=ln):
+                if len(set(seq)) == ln:
+                    continue
+                entries = tuple((i, 'py') for i in seq)
+                case = {'kind': kind, 'key_type': T.t_str(tk), 'n': n, 'pyobj': [list(e) for e in entries], 'container': 'list'}
+                label, problems, _, _ = py_judge(kind, tk, tc, entries, 'list', K)
+                r.transitions += 1
+                r.no_verdict += 0 if problems else 1
+                r.out(label)
+                r.nt((ts, 'py', 'list', entries))
+                for d, detail in problems:
+                    r.viol(d, case, detail)
+
+
 def run_shard(spec, tier):
     kind, tk, n = spec
     r = Result()
     explore(kind, tk, n, r)
     literals(kind, tk, n, 3 if tier == 'quick' else 4, r)
+    pyobjects(kind, tk, n, tier, r)
     r.ev(r.transitions)
     r.sample({'kind': kind, 'key_type': T.t_str(tk), 'n': n, 'history': [], 'op': 'SIZE', 'code': [P('SIZE')], 'state': []})
     K = KEYS[tk][:n]
@@ -249,6 +451,15 @@ def replay(case):
     kind = case['kind']
     tc = ('set', tk) if kind == 'set' else ('map', tk, VALS[kind][0])
     r = Result()
+    if 'pyobj' in case:
+        K = KEYS[tk][:case['n']]
+        entries = tuple((int(i), f) for i, f in case['pyobj'])
+        label, problems, o, exp = py_judge(kind, tk, tc, entries, case['container'], K)
+        if o is not None and case.get('code'):
+            py_ops(kind, tk, tc, K, o, exp, lambda: A.mk_type(tc).from_python_object(py_container(kind, tk, K, entries, case['container'])[0]),
+                   [(case['op'], case['code'], False)], M.make_context(), r, case)
+            problems = problems + [(d, v['cases'][0]['detail']) for d, v in r.violations.items()]
+        return problems
     if 'literal' in case:
         code = [P('PUSH', TY(tc), case['literal'])]
         try:
@@ -271,6 +482,10 @@ def replay(case):
 def observe(case):
     tk = _tk(case['key_type'])
     tc = ('set', tk) if case['kind'] == 'set' else ('map', tk, VALS[case['kind']][0])
+    if 'pyobj' in case:
+        entries = tuple((int(i), f) for i, f in case['pyobj'])
+        st, _, got = py_build(tc, py_container(case['kind'], tk, KEYS[tk][:case['n']], entries, case['container'])[0])
+        return [st, repr(got)]
     state = T.v_from_micheline(tc, case['state'])
     out, stack = M.run_impl(case['code'], [(tc, state)], None)
     return [out, [repr(x) for x in stack.items]]
